@@ -227,6 +227,10 @@ def run(run):
     # whole-row references (their models hold tens of thousands of placeholder cells: short schedules only)
     r3 = run.tlc('MC_C04', 'C05_rows_cases.cfg', dump=True, timeout=900)
     blocks += [b for b in pool.dump_blocks(r3.dump) if b.count('op |->') >= 3]
+    # shapes with many constant cells (SUMPRODUCT next to the counting functions; XIRR with two roots next to XIRR with one):
+    # all ordered pairs of evaluations
+    r4 = run.tlc('MC_C04', 'C05_pairs_cases.cfg', dump=True, timeout=900)
+    blocks += [b for b in pool.dump_blocks(r4.dump) if b.count('op |->') >= 3]
     shapes_n = {}
     responses = {}
     # the same schedules once more with evaluator 2 holding its OWN function table (SUM / COUNTA replaced): shapes that use them
